@@ -1,8 +1,10 @@
 #!/bin/bash
 # seeds sweep on the clean tree: every property, both tiers, seeds 2 and 3 (seed 1 is the default everywhere)
 cd "$(dirname "$0")/.." || exit 2
+# /repo is patched and restored by tools/seeded.py while other work goes on: sweep a snapshot of it instead (vp run --with-repo)
+export ST_REPO="${VP_RUN_REPO:-/repo}"
 python3 tools/setup.py > /dev/null 2>&1
-for seed in 2 3; do for p in C01 C02 C03 C04 C05 C06 C07 C08 C09 C10 C11 C12 C13 C14 C15 C16 C18 C19 C20; do
+for seed in 2 3; do for p in C01 C02 C03 C04 C05 C06 C07 C08 C09 C10 C11 C12 C13 C14 C15 C16 C17 C18 C19 C20; do
   for tier in quick thorough; do
     out=$(VERIF_SEED=$seed python3 tools/check.py $p --tier $tier 2>&1 | tail -3 | tr '\n' ' ')
     echo "seed=$seed $p $tier :: $out"
